@@ -11,3 +11,9 @@ Attrs: TypeAlias = JSONDict
 
 def text_length(text: str) -> int:
     return len(text.encode("utf-16-le")) // 2
+
+
+def text_slice(text: str, from_: int, to: int | None = None) -> str:
+    """Slice a string by UTF-16 code unit offsets (the unit document positions count in)."""
+    encoded = text.encode("utf-16-le")
+    return encoded[2 * from_ : None if to is None else 2 * to].decode("utf-16-le")
